@@ -1733,7 +1733,7 @@ def base_content(version, idx=(0, 1, 3), ts=(3, 4), ks=(0, "major"), ppq=480, mp
     return dict(version=version, ppq=ppq, mpq=mpq, ts=list(ts), ks=list(ks), snotes=sn, pnotes=pn, lines=[], pedal=[])
 
 
-def gen_dupids(versions):
+def gen_dupids(versions, names=None, rmax=4):
     """files with repeated ids: every subset of <= 4 lines (given and reversed order) of an 11-line alphabet over score
     ids {s1,s2} and performed ids {1,2,3}: matches sharing a score or a performed id, two textually different deletions
     of one score note, two different insertions of one performed note, an ornament; dialects 1.0.0 and 0.5.0 (all 7
@@ -1741,11 +1741,15 @@ def gen_dupids(versions):
     for version in versions:
         c0 = base_content(version, idx=(0, 1))
         p = sorted(c0["pnotes"])
-        alpha = [["match", "s1", p[0], 0], ["match", "s1", p[1], 0], ["match", "s2", p[0], 0],
-                 ["deletion", "s1", None, 0], ["deletion", "s1", None, 1], ["deletion", "s2", None, 0],
+        # names = (k1, k2): score note j is called like the performed note p[kj] (None: its own name sj), so that the
+        # score and the performed ids share one namespace, as in files whose notes are numbered n1..nK on both sides
+        s1, s2 = [("s%d" % (j + 1)) if k is None else p[k] for j, k in enumerate(names or (None, None))]
+        c0["snotes"] = {s1: c0["snotes"]["s1"], s2: c0["snotes"]["s2"]}
+        alpha = [["match", s1, p[0], 0], ["match", s1, p[1], 0], ["match", s2, p[0], 0],
+                 ["deletion", s1, None, 0], ["deletion", s1, None, 1], ["deletion", s2, None, 0],
                  ["insertion", None, p[0], 0], ["insertion", None, p[0], 1], ["insertion", None, p[1], 0],
-                 ["ornament", "s1", p[2], 0], ["insertion", None, p[2], 0]]
-        for r in (1, 2, 3, 4):
+                 ["ornament", s1, p[2], 0], ["insertion", None, p[2], 0]]
+        for r in range(1, rmax + 1):
             for sub in itertools.combinations(range(len(alpha)), r):
                 ls = [alpha[k] for k in sub]
                 if sum(1 for l in ls if l[2] == p[2]) > 1:
@@ -1814,6 +1818,24 @@ def gen_dialects(full):
                 c["lines"] = [["match", "s1", p[0], 0], ["match", "s2", p[1], 0], ["ornament", "s2", p[2], 0]]
                 c["pedal"] = pedal
                 yield dict(kind="text", content=c)
+
+
+SHARED_NAMES = [(a, b) for a in (None, 0, 1, 2, 3) for b in (None, 0, 1, 2, 3) if (a, b) != (None, None) and a != b]
+
+
+def gen_dupids_shared(versions, rmax, namings=None):
+    """the files of gen_dupids with score ids and performed ids drawn from ONE namespace: each of the two score notes is
+    named like one of the performed notes of the file (the three that occur in the line alphabet or a fourth that occurs
+    in no line) or keeps its own name; every injective naming with at least one shared name (%d namings); the documented
+    resolution counts score ids and performed ids separately, so a repeated id of one kind must not touch a line of the
+    other kind that carries the same string"""
+    for names in (SHARED_NAMES if namings is None else namings):
+        for case in gen_dupids(versions, names=names, rmax=rmax):
+            case["names"] = list(names)
+            yield case
+
+
+gen_dupids_shared.__doc__ = gen_dupids_shared.__doc__ % len(SHARED_NAMES)
 
 
 FIXTURES = ["Chopin_op10_no3_p01.match", "mozart_k265_var1.match", "test_fuer_elise.match"]
@@ -1947,6 +1969,21 @@ def spaces(tier, seed):
     else:
         extra = [v for v in VERSIONS if v not in ("1.0.0", "0.5.0")][seed % 5]
         sp.append(Space("dupids", lambda: gen_dupids(["1.0.0", "0.5.0", extra]), True, b_dup + "1.0.0, 0.5.0 and %s (seed%%5)" % extra))
+    b_sh = ("the dupids files with score and performed ids in one namespace: each of the 2 score notes named like one of 4 "
+            "performed notes of the file (3 used in the line alphabet, 1 unused) or by its own name, all %d injective namings "
+            "with >=1 shared name x every subset of <=%d of the 11 note lines, both orders, textual repetitions; score ids "
+            "and performed ids are counted separately by the documented resolution; dialects ")
+    if thorough:
+        sp.append(Space("dupids-shared", lambda: itertools.chain(gen_dupids_shared(["1.0.0"], 4), gen_dupids_shared(VERSIONS[1:], 3)), True,
+                        b_sh % (len(SHARED_NAMES), 4) + "1.0.0; subsets of <=3 lines for the 6 older dialects"))
+    else:
+        used = [nm for nm in SHARED_NAMES if 3 not in nm]  # names that occur in the line alphabet
+        both = [nm for nm in used if None not in nm]  # both score notes share a name with a performed note
+        sp.append(Space("dupids-shared", lambda: itertools.chain(gen_dupids_shared(["1.0.0"], 3, used),
+                                                                 gen_dupids_shared([extra], 3, both)), True,
+                        "quick: subsets of <=3 lines, the %d namings over the 3 performed names used in lines for 1.0.0 and the %d "
+                        "namings with both score names shared for %s (seed%%5); thorough scope: " % (len(used), len(both), extra)
+                        + b_sh % (len(SHARED_NAMES), 4) + "1.0.0; subsets of <=3 lines for the 6 older dialects"))
     sp.append(Space("dialects", lambda: gen_dialects(thorough), True,
                     "hand-written files in 7 dialects: all line kinds of 3 score notes x optional extra line x 2 placements; "
                     "30 keys x 3 meters; 70 spellings; 7 clocks x 3 pedal streams"))
